@@ -153,6 +153,19 @@ def peers (g : G) (i : Nat) : List Nat :=
 /-- `Interface.get_peers(itype=InterfaceType.ServicePort)` -/
 def spPeers (g : G) (i : Nat) : List Nat := (peers g i).filter (fun p => g.kind? p == some kServicePort)
 
+/-- an `Interface` object in a handle's cached `_interfaces` list: node id and name (names need not be distinct:
+two sub-interfaces `v100` on different ports of node `n1` both give a service port named `n1-v100`) -/
+structure IfH where
+  id : Nat
+  name : Nat
+  deriving DecidableEq, Repr
+
+/-- node ids listed by a handle -/
+def hIds (h : List IfH) : List Nat := h.map (·.id)
+
+/-- `list(filter(lambda x: x.node_id != p, self._interfaces))` — keyed by node id, not by name -/
+def hDrop (h : List IfH) (p : Nat) : List IfH := h.filter (fun x => x.id != p)
+
 /-- `NetworkService.disconnect_interface` on the graph; returns the removed port, if any -/
 def disconnectG (g : G) (i : Nat) : Except Err (G × Option Nat) :=
   if g.has i then
@@ -163,8 +176,8 @@ def disconnectG (g : G) (i : Nat) : Except Err (G × Option Nat) :=
   else .error .query
 
 /-- with the handle's cached interface list -/
-def disconnect (g : G) (h : List Nat) (i : Nat) : Except Err (G × List Nat) :=
-  (disconnectG g i).map (fun r => (r.1, match r.2 with | some p => h.filter (fun x => x != p) | none => h))
+def disconnect (g : G) (h : List IfH) (i : Nat) : Except Err (G × List IfH) :=
+  (disconnectG g i).map (fun r => (r.1, match r.2 with | some p => hDrop h p | none => h))
 
 /-- body of the loop `for i in interface_list: peers = i.get_peers(ServicePort); ... get_parent_element(peers[0]).disconnect_interface(i)` -/
 def disconnectStep (g : G) (i : Nat) : Except Err G :=
@@ -225,27 +238,27 @@ def removeLinkApi (g : G) (l : Nat) : Except Err G :=
   else .error .query
 
 /-- `Interface.remove_child_interface(name=)` through parent handle `h` (child already resolved) -/
-def removeChild (g : G) (h : List Nat) (p c : Nat) : Except Err (G × List Nat) :=
+def removeChild (g : G) (h : List IfH) (p c : Nat) : Except Err (G × List IfH) :=
   if g.kind? p == some kDedicatedPort then do
     let g1 ← disconnectDeep g [c]
-    (removeCp g1 c false).map (fun g' => (g', h.filter (fun x => x != c)))
+    (removeCp g1 c false).map (fun g' => (g', hDrop h c))
   else .error .assertion
 
 /-- the peering search of `unpeer`: first ServicePort of the caller's list with a ServicePort peer in the other list -/
-def findPeering (g : G) (ha hb : List Nat) : Option (Nat × Nat) :=
-  ha.findSome? (fun i =>
+def findPeering (g : G) (ha hb : List IfH) : Option (Nat × Nat) :=
+  (hIds ha).findSome? (fun i =>
     if g.kind? i == some kServicePort then
-      ((spPeers g i).find? (fun p => hb.contains p)).map (fun p => (i, p))
+      ((spPeers g i).find? (fun p => (hIds hb).contains p)).map (fun p => (i, p))
     else none)
 
 /-- `NetworkService.unpeer(ns)` with both handles' interface lists -/
-def unpeer (g : G) (ha hb : List Nat) : Except Err (G × List Nat × List Nat) :=
+def unpeer (g : G) (ha hb : List IfH) : Except Err (G × List IfH × List IfH) :=
   match findPeering g ha hb with
   | none => .error .topology
   | some (i, p) => do
     let g1 ← removeCp g i true
     let g2 ← removeCp g1 p true
-    .ok (g2, ha.filter (fun x => x != i), hb.filter (fun x => x != p))
+    .ok (g2, hDrop ha i, hDrop hb p)
 
 /-- deletion phase of `ExperimentTopology.prune` (the sets collected by the traversal are arguments) -/
 def prune (g : G) (nodes comps nss ifs : List Nat) : Except Err G := do
